@@ -308,6 +308,10 @@ class BaseSetup:
         <https://docs.scipy.org/doc/scipy/reference/generated/scipy.signal.detrend.html>`_.
         """
         axis = kwargs.pop("axis", 0)
+        if kwargs.get("overwrite_data", False):
+            # scipy may then detrend in place: work on a private copy, never on
+            # the array handed in (the user's data or the stored initial copy)
+            data = np.array(data, copy=True)
         return detrend(data, axis=axis, **kwargs)
 
     # method to detrend data
